@@ -4,7 +4,7 @@ import os
 import random
 
 from . import common as C
-from .c14 import POSITIONS as STMT_POSITIONS
+from .c14 import POSITIONS as STMT_POSITIONS, TARGET_POSITIONS, ASYNC_ONLY
 
 PID = "C13"
 BUILTINS = ["int", "str", "list", "dict", "ValueError", "object"]
@@ -12,7 +12,7 @@ BUILTINS = ["int", "str", "list", "dict", "ValueError", "object"]
 MENTION_FORMS = ["base", "attr_hint", "attr_hint_generic", "attr_hint_optional", "attr_hint_union", "param_hint", "param_hint_generic", "return_hint", "instantiate"]
 IMPORT_FORMS = ["local", "from_plain", "from_alias"]
 # positions of an instantiation `{E}` inside a method body (statement templates shared with C14; target positions make no sense for a call)
-INST_POSITIONS = [p for p in STMT_POSITIONS if p not in ("assign_target", "augassign", "del", "subscript_target", "await", "yield", "with_item", "with_item_as")] + ["with_item", "with_item_as"]
+INST_POSITIONS = [p for p in STMT_POSITIONS if p not in TARGET_POSITIONS + ("await", "yield", "with_item", "with_item_as")] + ["with_item", "with_item_as"]
 
 
 # class names whose SHAPE could be mistaken for something else (case variants of built-ins, typing-like, prefixes of built-ins, private, lower case)
@@ -21,6 +21,101 @@ TRICKY_NAMES = ["Range", "Slice", "Property", "Object", "Type", "Set", "Tuple", 
 # how an instantiation can sit inside another call: {O} = the outer callee (another coupled class, a plain function, a method), {E} = the inner instantiation
 NEST_STYLES = {"arg_of_class": "{O}({E})", "kwarg_of_class": "{O}(dep={E})", "second_arg_of_class": "{O}(1, {E})", "arg_of_arg": "{O}(print({E}))",
                "both_args": "{O}({E}, other={E})", "list_arg": "{O}([{E}])"}
+
+
+# hand-written SHAPES outside the spec generator: (tag, header lines, class body, expected number of distinct coupled classes, expected names or None when the
+# tool may name the class in more than one way). `Target`, `Other`, `Box` are classes imported with `from lib0 import ...` unless the header says otherwise.
+H = "from typing import List, Dict, Optional, Union, Tuple, Callable\nfrom lib0 import Target, Other, Box\n"
+SHAPES = [
+    # --- import forms -------------------------------------------------------------------------------------------------------------------------
+    ("import/alias_and_plain_use_plain", "from lib0 import Target as Tg, Target\n", "    def m(self):\n        return Target()", 1, ["Target"]),
+    ("import/alias_and_plain_use_alias", "from lib0 import Target as Tg, Target\n", "    def m(self):\n        return Tg()", 1, ["Tg"]),
+    ("import/alias_and_plain_use_both", "from lib0 import Target as Tg, Target\n", "    def m(self):\n        return Tg(), Target()", 1, None),
+    ("import/two_aliases", "from lib0 import Target as T1, Target as T2\n", "    def m(self):\n        return T1(), T2()", 1, None),
+    ("import/three_names_one_alias", "from lib0 import Other, Target as Tg, Box\n", "    def m(self):\n        return Other(), Tg(), Box()", 3, ["Box", "Other", "Tg"]),
+    ("import/inside_method", "", "    def m(self):\n        from lib0 import Target\n        return Target()", 1, ["Target"]),
+    ("import/inside_class", "", "    from lib0 import Target\n\n    def m(self):\n        return Target()", 1, ["Target"]),
+    ("import/module_plain/instantiate", "import lib0\n", "    def m(self):\n        return lib0.Target()", 1, None),
+    ("import/module_plain/base", "import lib0\n", "BASE=lib0.Target\n    x = 1", 1, None),
+    ("import/module_plain/attr_hint", "import lib0\n", "    field: lib0.Target = None", 1, None),
+    ("import/module_alias/instantiate", "import lib0 as l0\n", "    def m(self):\n        return l0.Target()", 1, None),
+    ("import/module_alias/base", "import lib0 as l0\n", "BASE=l0.Target\n    x = 1", 1, None),
+    ("import/module_alias/attr_hint", "import lib0 as l0\n", "    field: l0.Target = None", 1, None),
+    ("import/from_pkg_module/instantiate", "from pkg import lib0\n", "    def m(self):\n        return lib0.Target()", 1, None),
+    ("import/from_pkg_module/param_hint", "from pkg import lib0\n", "    def m(self, a: lib0.Target):\n        return a", 1, None),
+    ("import/dotted_module/instantiate", "import pkg.lib0\n", "    def m(self):\n        return pkg.lib0.Target()", 1, None),
+    # --- annotation shapes ---------------------------------------------------------------------------------------------------------------------
+    ("hint/user_generic", H, "    field: Box[Target] = None", 2, ["Box", "Target"]),
+    ("hint/callable", H, "    field: Callable[[Target], Other] = None", 2, ["Other", "Target"]),
+    ("hint/nested_generic", H, "    field: Dict[str, List[Target]] = None", 1, ["Target"]),
+    ("hint/tuple_two", H, "    field: Tuple[Target, Other] = None", 2, ["Other", "Target"]),
+    ("hint/union_three", H, "    field: Target | Other | None = None", 2, ["Other", "Target"]),
+    ("hint/optional_union", H, "    field: Optional[Union[Target, Other]] = None", 2, ["Other", "Target"]),
+    ("hint/star_args", H, "    def m(self, *args: Target, **kw: Other):\n        return args", 2, ["Other", "Target"]),
+    ("hint/kwonly", H, "    def m(self, *, a: Target):\n        return a", 1, ["Target"]),
+    ("hint/posonly", H, "    def m(self, a: Target, /, b=None):\n        return a", 1, ["Target"]),
+    ("hint/typed_default_param", H, "    def m(self, a: Target = None):\n        return a", 1, ["Target"]),
+    ("hint/init_attr", H, "    def __init__(self):\n        self.x: Target = None", 1, ["Target"]),
+    ("hint/local_var", H, "    def m(self):\n        x: Target = None\n        return x", 1, ["Target"]),
+    ("hint/async_return", H, "    async def m(self) -> Target:\n        return None", 1, ["Target"]),
+    ("hint/static_return", H, "    @staticmethod\n    def m() -> Target:\n        return None", 1, ["Target"]),
+    ("hint/classmethod_param", H, "    @classmethod\n    def m(cls, a: List[Target]) -> None:\n        return None", 1, ["Target"]),
+    ("hint/property_pair", H, "    @property\n    def v(self) -> int:\n        return 1\n\n    @v.setter\n    def v(self, value: Target) -> None:\n        pass", 1, ["Target"]),
+    ("hint/same_name_methods", H, "    def cb(self, a: int) -> int:\n        return a\n\n    def other(self):\n        def cb(a: Target) -> Other:\n            return a\n        return cb", 2, ["Other", "Target"]),
+    ("hint/nested_function", H, "    def m(self):\n        def inner(a: Target) -> Other:\n            return a\n        return inner", 2, ["Other", "Target"]),
+    # --- instantiation positions not in the statement-position matrix --------------------------------------------------------------------------
+    ("inst/typed_default", H, "    def m(self, a: int = Target()):\n        return a", 1, ["Target"]),
+    ("inst/untyped_default", H, "    def m(self, a=Target()):\n        return a", 1, ["Target"]),
+    ("inst/kwonly_default", H, "    def m(self, *, a=Target(), b: int = Other()):\n        return a", 2, ["Other", "Target"]),
+    ("inst/decorator_arg", H + "def deco(x):\n    return lambda f: f\n", "    @deco(Target())\n    def m(self):\n        return 1", 1, ["Target"]),
+    ("inst/subscript_target", H, "    def m(self):\n        self.d[Target()] = 1", 1, ["Target"]),
+    ("inst/del_subscript", H, "    def m(self):\n        del self.d[Target()]", 1, ["Target"]),
+    ("inst/augassign_target_index", H, "    def m(self):\n        self.d[Target()] += 1", 1, ["Target"]),
+    ("inst/class_level", H, "    registry = Target()", 1, ["Target"]),
+    ("inst/class_level_dict", H, "    registry = {\"a\": Target(), \"b\": [Other()]}", 2, ["Other", "Target"]),
+    ("inst/chained_call", H, "    def m(self):\n        return Target().run().go()", 1, ["Target"]),
+    ("inst/attr_of_call", H, "    def m(self):\n        return Target().value", 1, ["Target"]),
+    ("inst/call_of_subscript_arg", H, "    def m(self):\n        return self.reg[0](Target())", 1, ["Target"]),
+    ("inst/starred_arg", H, "    def m(self):\n        return print(*Target(), **Other())", 2, ["Other", "Target"]),
+    ("inst/walrus", H, "    def m(self):\n        if (t := Target()):\n            return t\n        return None", 1, ["Target"]),
+    ("inst/ternary_all", H, "    def m(self, v):\n        return Target() if Other() else Box()", 3, ["Box", "Other", "Target"]),
+    ("inst/comprehension_cond", H, "    def m(self, v):\n        return [x for x in v if Target()]", 1, ["Target"]),
+    ("inst/comprehension_iter", H, "    def m(self):\n        return {x: 1 for x in Target()}", 1, ["Target"]),
+    ("inst/genexp_element", H, "    def m(self, v):\n        return list(Target() for _ in v)", 1, ["Target"]),
+    ("inst/lambda_default", H, "    def m(self):\n        return lambda a=Target(): a", 1, ["Target"]),
+    ("inst/return_tuple", H, "    def m(self):\n        return 1, Target()", 1, ["Target"]),
+    ("inst/dict_key_value", H, "    def m(self):\n        return {Target(): Other()}", 2, ["Other", "Target"]),
+    ("inst/set_literal", H, "    def m(self):\n        return {Target()}", 1, ["Target"]),
+    ("inst/slice_bound", H, "    def m(self, v):\n        return v[Target():Other()]", 2, ["Other", "Target"]),
+    ("inst/compare_chain", H, "    def m(self, v):\n        return v < Target() <= Other()", 2, ["Other", "Target"]),
+    ("inst/boolop", H, "    def m(self, v):\n        return v and Target() or Other()", 2, ["Other", "Target"]),
+    ("inst/unary_not", H, "    def m(self):\n        return not Target()", 1, ["Target"]),
+    ("inst/assert_msg", H, "    def m(self, v):\n        assert v, Target()", 1, ["Target"]),
+    ("inst/raise_from", H, "    def m(self):\n        raise Target() from Other()", 2, ["Other", "Target"]),
+    ("inst/match_subject", H, "    def m(self):\n        match Target():\n            case _:\n                return Other()", 2, ["Other", "Target"]),
+    ("inst/nested_class_method", H, "    class Inner:\n        def m(self):\n            return Target()", 1, ["Target"]),
+    ("inst/nested_function", H, "    def m(self):\n        def inner():\n            return Target()\n        return inner", 1, ["Target"]),
+    ("inst/global_and_nonlocal", H, "    def m(self):\n        global G\n        G = Target()", 1, ["Target"]),
+    ("inst/try_star", H, "    def m(self):\n        try:\n            pass\n        except* ValueError:\n            self.x = Target()", 1, ["Target"]),
+    ("inst/while_else", H, "    def m(self, v):\n        while v:\n            v -= 1\n        else:\n            return Target()", 1, ["Target"]),
+    ("inst/elif3", H, "    def m(self, v):\n        if v == 1:\n            pass\n        elif v == 2:\n            pass\n        elif v == 3:\n            return Target()", 1, ["Target"]),
+    # --- built-ins are not couplings (default options) ---------------------------------------------------------------------------------------------
+    ("builtin/base_oserror", "", "BASE=OSError\n    x = 1", 0, []),
+    ("builtin/base_exception_pair", "", "BASE=LookupError, KeyError\n    x = 1", 0, []),
+    ("builtin/raise_notimplemented", "", "    def m(self):\n        raise NotImplementedError()", 0, []),
+    ("builtin/raise_stopiteration", "", "    def m(self):\n        raise StopIteration()", 0, []),
+    ("builtin/hint_types", "", "    a: int = 0\n    b: dict = None\n    c: frozenset = None\n    d: bytes = b\"\"\n    e: BaseException = None\n    f: ZeroDivisionError = None", 0, []),
+    ("builtin/instantiate_types", "", "    def m(self):\n        return [list(), dict(), set(), tuple(), frozenset(), bytearray(), complex(), object(), memoryview(b\"\"), TimeoutError(), UnicodeDecodeError]", 0, []),
+    ("builtin/warning_classes", "", "    def m(self):\n        return DeprecationWarning(), UserWarning(), ResourceWarning()", 0, []),
+]
+
+
+def shape_source(header, body):
+    base = ""
+    if body.startswith("BASE="):
+        first, body = body.split("\n", 1)
+        base = "(%s)" % first[5:]
+    return header + "\n\nclass Subject%s:\n%s\n" % (base, body)
 
 
 class ClassSpec:
@@ -74,7 +169,7 @@ def render(spec, member_order=None, extra_unrelated=0, self_name=None):
         elif form == "instantiate":
             I = "        "
             t = STMT_POSITIONS[pos].replace("{E}", "%s()" % b).replace("{A}", "self.slot").replace("{I}", I)
-            members.append("    %sdef meth%d(self, v=None):\n%s%s\n        return None" % ("async " if pos == "await" else "", k, I, t))
+            members.append("    %sdef meth%d(self, v=None):\n%s%s\n        return None" % ("async " if pos in ASYNC_ONLY else "", k, I, t))
         elif form == "instantiate_nested":
             I = "        "
             stmt_pos, style, outer = pos
@@ -147,7 +242,7 @@ def run(tier, seed, replay=None):
     res.assumptions += [
         "mentions are generated in the forms the property lists (bases, attribute/parameter/return annotations incl. List[…], Optional[Dict[str,…]], X | None, "
         "instantiations of same-file classes and of classes imported with `from m import N [as A]`); module-attribute forms (`import m; m.K()`) are ambiguous in "
-        "the property and are not generated",
+        "the property; they are run as hand-written shapes (count only) and the tool's behaviour on them is recorded as a known finding",
         "the expected set is known by construction of each generated class; the real CBO must equal the proved set model on it, and the metamorphic laws "
         "(mention again, reorder, rename, add unrelated, add one new) are checked on the real code directly",
     ]
@@ -284,6 +379,77 @@ def run(tier, seed, replay=None):
             if c is None or c["count"] != want:
                 res.violation("C13 (%s): CBO becomes %s, expected %d" % (kind, None if c is None else c["count"], want), {"signature": {"kind": "metamorphic", "law": kind},
                                                                                                                           "before": src, "after": src2})
+    # ---- hand-written shapes (import forms, annotation shapes, positions outside the statement matrix, built-ins) ----------------------------------------
+    shp = C.harness_batch("cbo", [{"Src": shape_source(h, b)} for _, h, b, _, _ in SHAPES])
+    hist["shape_cases"] = len(SHAPES)
+    for (tag, h, b, want, names), g in zip(SHAPES, shp):
+        src = shape_source(h, b)
+        try:
+            compile(src, "shape", "exec")
+        except SyntaxError as e:
+            res.violation("generator error: shape %s is not valid Python: %s" % (tag, e), {"source": src})
+            continue
+        c = subject(g, "Subject") if "classes" in g else None
+        hist["classes"] += 1
+        hist["matrix_cells"] += 1
+        if c is None:
+            res.violation("C13: class Subject missing from the CBO result of shape %s: %s" % (tag, g), {"source": src})
+            continue
+        if want > 0:
+            nontrivial.add("shape:" + tag)
+        if c["count"] != want or c["count"] != len(c["deps"]) or (names is not None and sorted(c["deps"]) != names):
+            sig = {"kind": "shape", "case": tag}
+            k = C.classify(PID, sig)
+            if k:
+                res.known_finding(k, "(reported %d %s, expected %d %s)" % (c["count"], c["deps"], want, names))
+            else:
+                diffs += 1
+                res.violation("C13 shape %s: Subject has CBO %d %s, the distinct coupled classes it mentions are %d %s" % (tag, c["count"], c["deps"], want, names if names is not None else "(one name per class)"),
+                              {"signature": sig, "source": src})
+    # ---- several files through the real CLI: a class's CBO is a function of ITS file (names imported elsewhere are not imported here) -----------------------
+    import shutil
+    import tempfile
+    tmpd = tempfile.mkdtemp(prefix="pv_c13_")
+    try:
+        proj = os.path.join(tmpd, "proj")
+        os.makedirs(proj)
+        files = {"a_first.py": "from lib0 import Motor, Widget as W, Gear\n\n\nclass User:\n    def m(self):\n        return Motor(), W(), Gear()\n",
+                 "b_later.py": "def Motor():\n    return 1\n\n\nW = print\n\n\nclass Panel:\n    def m(self, Gear):\n        return Motor(), W(), Gear()\n",
+                 "c_last.py": "from lib0 import Gear\n\n\nclass Dashboard:\n    def m(self):\n        return Gear(), Motor(), W()\n\n\ndef Motor():\n    return 2\n\n\ndef W():\n    return 3\n"}
+        want_cli = {"User": 3, "Panel": 0, "Dashboard": 1}
+        good = [(tag, sp, src) for (tag, sp, src, exp), g in zip(cases, go) if tag[0] == "random" and "classes" in g and subject(g, sp.name) and subject(g, sp.name)["count"] == len(exp)][:40]
+        for i, (tag, sp, src) in enumerate(good):
+            files["gen_%02d.py" % i] = src
+            want_cli[sp.name] = None
+        single = {}
+        for (tag, sp, src), g in zip([(t, s_, sr) for t, s_, sr, _ in cases], go):
+            if "classes" in g and subject(g, sp.name):
+                single[sp.name] = subject(g, sp.name)
+        for fn, text in files.items():
+            with open(os.path.join(proj, fn), "w") as f:
+                f.write(text)
+        with open(os.path.join(tmpd, "cfg.toml"), "w") as f:
+            f.write("[cbo]\nshow_zeros = true\n")
+        rc, data, err = C.pyscn_json(["proj"], tmpd, extra=["--select", "cbo", "--config", os.path.join(tmpd, "cfg.toml")])
+        hist["cli_classes"] = 0
+        if data is None or not data.get("cbo"):
+            res.violation("analyze --select cbo produced no cbo section on the multi-file project: %s" % err[-300:], {"files": files})
+        else:
+            got = {}
+            for c in data["cbo"]["Classes"] or []:
+                got.setdefault(c["Name"], []).append((c["Metrics"]["CouplingCount"], sorted(c["Metrics"]["DependentClasses"] or [])))
+            for name, want in want_cli.items():
+                hist["cli_classes"] += 1
+                if want is None:
+                    want, wnames = single[name]["count"], sorted(single[name]["deps"])
+                else:
+                    wnames = None
+                g = got.get(name)
+                if not g or len(g) != 1 or g[0][0] != want or (wnames is not None and g[0][1] != wnames):
+                    res.violation("C13 (several files, real CLI): class %s is reported with %s; analysed alone its CBO is %d %s" % (name, g, want, wnames or ""),
+                                  {"signature": {"kind": "multi-file", "class": name if name in ("User", "Panel", "Dashboard") else "generated"}, "files": files})
+    finally:
+        shutil.rmtree(tmpd, ignore_errors=True)
     # risk thresholds on the real code
     for lo, med in ((3, 7), (1, 2), (2, 5)):
         for k in sorted(set([0, lo - 1, lo, lo + 1, med, med + 1])):
@@ -306,8 +472,10 @@ def run(tier, seed, replay=None):
         "evaluations": hist["classes"] + hist["metamorphic_pairs"],
         "distinct_nontrivial": len(nontrivial),
         "rule": "matrix: %d instantiation positions × 3 import forms (same-file, from-import, from-import-as) + 8 annotation/base forms × 3 import forms; random classes "
-                "(0-9 coupled classes + built-ins, 0-12 mentions in random forms/positions); five metamorphic variants per correct random class; risk on thresholds; "
-                "non-trivial = class with expected CBO > 0" % len(INST_POSITIONS),
+                "(0-9 coupled classes + built-ins, 0-12 mentions in random forms/positions); %d hand-written shapes (import forms incl. aliased+plain, two aliases, module-qualified; "
+                "annotation shapes; positions such as defaults, decorator arguments, targets, class level; all built-in exception classes); a multi-file project through the real "
+                "CLI (each class as when analysed alone; names imported in another file are not imported here); five metamorphic variants per correct random class; risk on thresholds; "
+                "non-trivial = class with expected CBO > 0" % (len(INST_POSITIONS), len(SHAPES)),
         "exhaustive": True,
         "exhaustive_note": "the position/form matrices are run completely on every run",
         "samples": [{"source": cases[0][2], "reported": go[0].get("classes")}],
